@@ -272,12 +272,81 @@ def extrema(prog, ctx, roles):
         knot_term_ok(K, P, Ycands or Yn, sp.Integer(0), n, want_min, ctx, fn, name + ':table', 'C08.c', 'C08.d')
 
 
+def reduction_form(prog, ctx, fn, inst, P, want_min):
+    """The global extremum written as a running minimum/maximum over all entries: prefactor * Min/Max(start, RED over rows(RED over
+    the row)).  The start value must be neutral for the reduction (+-infinity, +-numeric_limits::max(), lowest(), or an entry of the
+    table).  Returns False when the function is not of that form."""
+    AU = sp.core.function.AppliedUndef
+    try:
+        outs = [o for o in Symx(prog, fn).run() if o.kind == 'return']
+    except Undecided:
+        return False
+    if len(outs) != 1 or not isinstance(outs[0].value, sp.Basic) or not [a for a in outs[0].value.atoms(AU) if a.func.__name__ in ('MAXRED', 'MINRED')]:
+        return False
+    B = outs[0].value
+    probs = []
+    for tag, wantf in (('P>0', 'MIN' if want_min else 'MAX'), ('P<0', 'MAX' if want_min else 'MIN')):
+        b_ = pos_neg(B, P)[0 if tag == 'P>0' else 1]
+        q = sp.cancel(b_ / P)
+        if q.has(P):
+            probs.append('%s: result is %s, not prefactor times an extremum' % (tag, str(b_)[:120]))
+            continue
+        if not isinstance(q, (sp.Max, sp.Min)):
+            reds = [q] if isinstance(q, AU) and q.func.__name__ in ('MAXRED', 'MINRED') else []
+            starts = []
+        else:
+            reds = [a for a in q.args if isinstance(a, AU) and a.func.__name__ in ('MAXRED', 'MINRED')]
+            starts = [a for a in q.args if a not in reds]
+        if len(reds) != 1:
+            probs.append('%s: %s is not a single running extremum over the table' % (tag, str(q)[:120]))
+            continue
+        kind = 'MAX' if reds[0].func.__name__ == 'MAXRED' else 'MIN'
+        if kind != wantf or (isinstance(q, sp.Max) and kind != 'MAX') or (isinstance(q, sp.Min) and kind != 'MIN'):
+            probs.append('%s: selects the %s over the table, expected the %s' % (tag, kind.lower(), wantf.lower()))
+        outer = reds[0]
+        inner = outer.args[0]
+        if not (isinstance(inner, AU) and inner.func == outer.func):
+            probs.append('%s: the reduction does not run over rows and columns: %s' % (tag, str(outer)[:120]))
+            continue
+        ent, jv, jlo, jhi = inner.args
+        iv, ilo, ihi = outer.args[1:]
+        okent = isinstance(ent, AU) and ent.func.__name__ == 'this.function_values' and tuple(ent.args) == (iv, jv)
+        okrng = ilo == 0 and jlo == 0 and str(sp.simplify(ihi + 1)) == 'len(this.function_values)' and 'len(' in str(jhi)
+        if not (okent and okrng):
+            probs.append('%s: the reduction runs over %s for (%s,%s) in [%s,%s]x[%s,%s], not over every entry of the table' % (tag, ent, iv, jv, ilo, ihi, jlo, jhi))
+        for st_ in starts:
+            neutral = False
+            txt = str(st_)
+            if st_ in (sp.oo, -sp.oo):
+                neutral = (st_ == -sp.oo) == (kind == 'MAX')
+            elif isinstance(st_, AU) and st_.func.__name__ == 'this.function_values':
+                neutral = True
+            elif 'numeric_limits' in txt:
+                neg = txt.startswith('-')
+                if 'lowest' in txt:
+                    neutral = kind == 'MAX' and not neg
+                elif '::max' in txt or 'infinity' in txt:
+                    neutral = (kind == 'MIN' and not neg) or (kind == 'MAX' and neg)
+                else:
+                    neutral = False          # numeric_limits<double>::min() is the smallest POSITIVE double
+            elif st_.is_number:
+                neutral = False
+            if not neutral:
+                probs.append('%s: the running %s starts from %s, which is not neutral for it: a table whose entries all lie on the other side of that '
+                             'value returns the start value instead of an entry' % (tag, kind.lower() + 'imum', txt))
+    ctx.decide('C08.e', inst, fn, not probs, 'prefactor * running min/max over every entry, started from a neutral value (max for a negative prefactor)',
+               '; '.join(probs), witness={'reproducer': 'a table whose entries are all negative: Global_Maximum returns 2.2e-308'} if probs else None, form=str(B)[:300])
+    return True
+
+
 def extrema2d(prog, ctx):
     for name, want_min in (('Global_Minimum', True), ('Global_Maximum', False)):
         fn = prog.fn(Q2 + name, 0)
         P = Symbol('this.prefactor', real=True)
-        rf = [s for s in walk_stmts(fn.body) if s['k'] == 'For' and loop_container(s) is not None]
         inst = 'Interpolation_2D::' + name
+        if reduction_form(prog, ctx, fn, inst, P, want_min):
+            continue
+        rf = [s for s in walk_stmts(fn.body) if s['k'] == 'For' and loop_container(s) is not None]
         if len(rf) != 1:
             ctx.undecided('C08.e', inst, fn, 'expected one loop over the rows')
             continue
@@ -319,7 +388,12 @@ def extrema2d(prog, ctx):
                 continue
             if ea[0].func.__name__ != wantf or eb[0].func.__name__ != wantf:
                 probs.append('%s: selects %s per row and %s overall, expected %s' % (tag, ea[0].func.__name__, eb[0].func.__name__, wantf))
-            if not (str(ea[0].args[0]) == 'arr:' + rowv and ea[0].args[1] == 0 and str(ea[0].args[2]) == 'len(%s)' % rowv):
+            rown = sx.lv_name(rng)
+            whole_row = (str(ea[0].args[0]) == 'arr:' + rowv and ea[0].args[1] == 0 and str(ea[0].args[2]) == 'len(%s)' % rowv) or \
+                (isinstance(ea[0].args[0], sp.core.function.AppliedUndef) and ea[0].args[0].func.__name__ == 'arr:' + rown and len(ea[0].args[0].args) == 1
+                 and ea[0].args[1] == 0 and isinstance(ea[0].args[2], sp.core.function.AppliedUndef) and ea[0].args[2].func.__name__ == 'len:' + rown
+                 and ea[0].args[2].args == ea[0].args[0].args and str(ea[0].args[0].args[0]) in (rowi, rowi + '_'))
+            if not whole_row:
                 probs.append('%s: row extremum does not range over the whole row: %s' % (tag, ea[0]))
             if not (str(eb[0].args[0]).startswith('arr:' + collected) and eb[0].args[1] == 0):
                 probs.append('%s: overall extremum does not range over all collected rows: %s' % (tag, eb[0]))
